@@ -42,7 +42,10 @@ def run_in_child(module, envname, cases):
     flags, extra = ENVIRONMENTS[envname]
     env, verif = _base_env()
     env.update(extra)
-    payload = json.dumps({"module": module, "env": envname, "cases": cases}).encode("ascii")
+    from mc.runner import scratch_dir
+    sdir = os.path.join(scratch_dir(), "child")
+    os.makedirs(sdir, exist_ok=True)
+    payload = json.dumps({"module": module, "env": envname, "cases": cases, "scratch": sdir}).encode("ascii")
     p = subprocess.run([sys.executable] + list(flags) + ["-c", "from mc import child; child.worker()"], input=payload,
                        capture_output=True, env=env, cwd=verif)
     if p.returncode != 0:
@@ -63,6 +66,8 @@ def run_in_child(module, envname, cases):
 
 def worker():
     req = json.loads(sys.stdin.buffer.read().decode("ascii"))
+    from mc import runner
+    runner._SCRATCH_ROOT = req["scratch"]  # the child's files live under the parent's scratch directory (removed by the parent)
     mod = importlib.import_module("props." + req["module"])
     res = []
     for case in req["cases"]:
